@@ -1004,6 +1004,7 @@ func cmdSeq(fs *flag.FlagSet, args []string) {
 	big := fs.Bool("big", false, "allow large transfers")
 	scen := fs.Bool("scenarios", true, "run the directed scenarios first")
 	c09 := fs.Bool("c09", false, "compare full dumps and free counts around every failing operation")
+	c10 := fs.Int("c10", 0, "every N operations: coherence of caches/allocators with the disk, restart and recovery comparison")
 	limits := fs.Bool("limits", true, "probe the announced limits")
 	fs.Parse(args)
 	root := NewRng(*seed)
@@ -1020,6 +1021,9 @@ func cmdSeq(fs *flag.FlagSet, args []string) {
 			s.c09 = *c09
 			sc.run(s)
 			s.scanAll()
+			if *c10 > 0 {
+				s.restartCompare()
+			}
 			s.close()
 			merge(s)
 		}
@@ -1031,8 +1035,14 @@ func cmdSeq(fs *flag.FlagSet, args []string) {
 		s.c09 = *c09
 		for j := 0; j < *nops && !s.dead; j++ {
 			s.randomOp(*big)
+			if *c10 > 0 && j%*c10 == *c10-1 {
+				s.restartCompare()
+			}
 		}
 		s.scanAll()
+		if *c10 > 0 {
+			s.restartCompare()
+		}
 		s.close()
 		merge(s)
 	}
